@@ -30,7 +30,7 @@ namespace vsym
 
   struct Node { int op; int a; int b; double c; };
   struct PathCond { int cmp; int a; int b; };
-  struct Oblig { int kind; std::string label; int lhs; int rhs; double shl, shr; }; // kind 0 = must-hold eq, 1 = witness (must be refutable)
+  struct Oblig { int kind; std::string label; int lhs; int rhs; double shl, shr; std::string var; }; // kind 0 = must-hold eq, 1 = witness (must be refutable), 2 = lhs <= rhs, 3 = d lhs / d var == rhs
 
   struct Case
   {
@@ -264,9 +264,11 @@ namespace vsym
   inline void assume_lt(const SymReal& a, const SymReal& b) { if(!(a.sh < b.sh)) { std::fprintf(stderr, "vsym: assumption violated at shadow point\n"); std::abort(); } record_pc(C_LT, a.nid(), b.nid()); }
   inline void assume_le(const SymReal& a, const SymReal& b) { if(!(a.sh <= b.sh)) { std::fprintf(stderr, "vsym: assumption violated at shadow point\n"); std::abort(); } record_pc(C_LE, a.nid(), b.nid()); }
   inline void assume_ne(const SymReal& a, const SymReal& b) { if(!(a.sh != b.sh)) { std::fprintf(stderr, "vsym: assumption violated at shadow point\n"); std::abort(); } record_pc(C_NE, a.nid(), b.nid()); }
-  inline void check_eq(const std::string& label, const SymReal& lhs, const SymReal& rhs) { cur_case().obs.push_back(Oblig{0, label, lhs.nid(), rhs.nid(), lhs.sh, rhs.sh}); }
-  inline void check_le(const std::string& label, const SymReal& lhs, const SymReal& rhs) { cur_case().obs.push_back(Oblig{2, label, lhs.nid(), rhs.nid(), lhs.sh, rhs.sh}); }
-  inline void witness_neq(const std::string& label, const SymReal& lhs, const SymReal& rhs) { cur_case().obs.push_back(Oblig{1, label, lhs.nid(), rhs.nid(), lhs.sh, rhs.sh}); }
+  inline void check_eq(const std::string& label, const SymReal& lhs, const SymReal& rhs) { cur_case().obs.push_back(Oblig{0, label, lhs.nid(), rhs.nid(), lhs.sh, rhs.sh, ""}); }
+  // derivative obligation: d f / d <variable> == g (the driver differentiates the term DAG of f symbolically)
+  inline void check_deriv(const std::string& label, const SymReal& f, const std::string& var, const SymReal& g) { cur_case().obs.push_back(Oblig{3, label, f.nid(), g.nid(), f.sh, g.sh, var}); }
+  inline void check_le(const std::string& label, const SymReal& lhs, const SymReal& rhs) { cur_case().obs.push_back(Oblig{2, label, lhs.nid(), rhs.nid(), lhs.sh, rhs.sh, ""}); }
+  inline void witness_neq(const std::string& label, const SymReal& lhs, const SymReal& rhs) { cur_case().obs.push_back(Oblig{1, label, lhs.nid(), rhs.nid(), lhs.sh, rhs.sh, ""}); }
   inline void note(const std::string& s) { cur_case().notes.push_back(s); }
   // discrete fact decided natively inside this symbolic execution (event logs, counters, "abort reached", ...)
   inline void fact(const std::string& label, bool ok, const std::string& detail = "") { cur_case().facts.push_back({label, ok ? std::string("ok") : ("FAIL: " + detail)}); }
@@ -294,7 +296,11 @@ namespace vsym
     {
       std::fprintf(f, "CASE %s\t%s\n", esc(cs.name).c_str(), esc(cs.meta).c_str());
       for(auto& p : cs.pcs) std::fprintf(f, "PC %s %d %d\n", cn[p.cmp], p.a, p.b);
-      for(auto& o : cs.obs) std::fprintf(f, "%s %d %d %s %s %s\n", o.kind == 0 ? "EQ" : (o.kind == 2 ? "LE" : "NEQW"), o.lhs, o.rhs, hexd(o.shl).c_str(), hexd(o.shr).c_str(), esc(o.label).c_str());
+      for(auto& o : cs.obs)
+      {
+        if(o.kind == 3) std::fprintf(f, "DEQ %d %d %s %s %s %s\n", o.lhs, o.rhs, hexd(o.shl).c_str(), hexd(o.shr).c_str(), o.var.c_str(), esc(o.label).c_str());
+        else std::fprintf(f, "%s %d %d %s %s %s\n", o.kind == 0 ? "EQ" : (o.kind == 2 ? "LE" : "NEQW"), o.lhs, o.rhs, hexd(o.shl).c_str(), hexd(o.shr).c_str(), esc(o.label).c_str());
+      }
       for(auto& s : cs.notes) std::fprintf(f, "NOTE %s\n", esc(s).c_str());
       for(auto& s : cs.facts) std::fprintf(f, "FACT %s\t%s\n", esc(s.first).c_str(), esc(s.second).c_str());
       std::fprintf(f, "ENDCASE\n");
@@ -364,6 +370,7 @@ namespace vh
     static vsym::SymReal var(const std::string& n, double sh) { return vsym::SymReal::var(n, sh); }
     static void eq(const std::string& l, const vsym::SymReal& a, const vsym::SymReal& b) { vsym::check_eq(l, a, b); }
     static void le(const std::string& l, const vsym::SymReal& a, const vsym::SymReal& b) { vsym::check_le(l, a, b); }
+    static void deq(const std::string& l, const vsym::SymReal& f, const std::string& var, const vsym::SymReal& g) { vsym::check_deriv(l, f, var, g); }
     static void witness(const std::string& l, const vsym::SymReal& a, const vsym::SymReal& b) { vsym::witness_neq(l, a, b); }
     static void begin(const std::string& n, const std::string& m = "{}") { vsym::begin_case(n, m); }
     static void end() { vsym::end_case(); }
@@ -392,6 +399,8 @@ namespace vh
       auto& R = Replay::get(); double sc = std::max(1.0, std::max(std::fabs(a), std::fabs(b)));
       if(!(a <= b + 1e-9 * sc)) { ++R.fails; std::printf("REPLAY-FAIL case=%s label=%s lhs=%.17g rhs=%.17g (lhs <= rhs expected)\n", R.cur.c_str(), l.c_str(), a, b); }
     }
+    // derivative obligations are replayed by central finite differences: the driver runs this binary at var-h, var, var+h
+    static void deq(const std::string& l, double f, const std::string& var, double g) { std::printf("DEQVAL case=%s\tlabel=%s\tvar=%s\tf=%.17g\tg=%.17g\n", Replay::get().cur.c_str(), l.c_str(), var.c_str(), f, g); }
     static void witness(const std::string&, double, double) {}
     static void begin(const std::string& n, const std::string& = "{}") { Replay::get().cur = n; }
     static void end() {}
